@@ -29,8 +29,8 @@ ANCHOR_FILES = ["src/ropt/ensemble_evaluator/_ensemble_evaluator.py", "src/ropt/
 RULE = ("case = one configuration; non-trivial if the run made at least one gradient (perturbation) request or is a population run; distinct key = case index; "
         "monitor_counters: traces compared, evaluator calls hashed")
 ASSUMPTIONS = ["differential_evolution is only required to be reproducible when given an explicit 'seed' option (as the statement says)"]
-REQUIRED = {"quick": {"trace_pairs_compared": 295, "evaluator_calls_hashed": 2515, "foreign_runs_interleaved": 144, "seed_sensitivity_checked": 30, "fresh_process_runs": 6, "same_step_reruns": 200, "runs_with_a_foreign_run_inside": 70, "first_drawing_sampler_without_variables": 5, "__nontrivial__": 63},
-            "thorough": {"trace_pairs_compared": 6075, "evaluator_calls_hashed": 57264, "foreign_runs_interleaved": 3000, "seed_sensitivity_checked": 700, "fresh_process_runs": 75, "same_step_reruns": 4000, "runs_with_a_foreign_run_inside": 1400, "__nontrivial__": 1245}}
+REQUIRED = {"quick": {"trace_pairs_compared": 295, "evaluator_calls_hashed": 2515, "foreign_runs_interleaved": 144, "seed_sensitivity_checked": 30, "fresh_process_runs": 6, "same_step_reruns": 200, "fresh_process_runs_with_several_samplers": 120, "runs_with_a_foreign_run_inside": 70, "first_drawing_sampler_without_variables": 5, "__nontrivial__": 63},
+            "thorough": {"trace_pairs_compared": 6075, "evaluator_calls_hashed": 57264, "foreign_runs_interleaved": 3000, "seed_sensitivity_checked": 700, "fresh_process_runs": 75, "same_step_reruns": 4000, "fresh_process_runs_with_several_samplers": 700, "runs_with_a_foreign_run_inside": 1400, "__nontrivial__": 1245}}
 N = {"quick": 120, "thorough": 2500}
 SAMPLERS = ["norm", "uniform", "truncnorm", "sobol", "halton", "lhs"]
 
@@ -59,6 +59,13 @@ def gen_spec(rng):
     spec["samplers"] = [{"method": str(rng.choice(SAMPLERS)), "shared": bool(rng.random() < 0.4)} for _ in range(ns)]
     if ns > 1:
         spec["smap"] = [int(t) for t in rng.integers(0, ns, size=V)]
+        if rng.random() < 0.5:
+            # several quasi-Monte-Carlo samplers with different method strings: their engines take their streams from the one
+            # gradient generator in the order in which the samplers are constructed
+            names = [str(x) for x in rng.permutation(["sobol", "halton", "lhs", "scipy/sobol", "scipy/lhs"])[:ns]]
+            for smp, nm in zip(spec["samplers"], names):
+                smp["method"] = nm
+            spec["_several_qmc"] = True
     if V > 1 and rng.random() < 0.3:
         m = rng.random(V) < 0.6
         m[int(rng.integers(V))] = True
@@ -247,18 +254,24 @@ def run_case(case, obs):
             obs.violation("changing_the_population_seed_does_not_change_the_run", seed=spec["optimizer"]["options"]["seed"])
             return
     # E: fresh interpreter, other hash seed (subset)
-    if case["i"] % (10 if obs.tier == "quick" else 20) == 0:
-        e = env.child_env()
-        e["PYTHONHASHSEED"] = str(1 + case["i"] % 7)
-        p = subprocess.run(["/venv/bin/python", "-B", "-m", "checks.c16"], input=json.dumps(_plain(spec)), capture_output=True, text=True, env=e, cwd=env.VERIF_DIR, timeout=300, check=False)
-        obs.count("fresh_process_runs")
-        if p.returncode != 0:
-            obs.violation("fresh_process_failed", stderr=p.stderr[-800:])
-            return
-        obs.count("trace_pairs_compared")
-        if p.stdout.strip().split()[-1] != A[0]:
-            obs.violation("trace_differs_in_fresh_process", samplers=spec["samplers"])
-            return
+    several = len(spec["samplers"]) > 1 and (obs.tier == "quick" or case["i"] % 3 == 0)
+    if case["i"] % (10 if obs.tier == "quick" else 20) == 0 or several:
+        # configurations with several samplers run in four fresh interpreters (hash seeds 1-4): whatever is ordered by hashing
+        # comes out differently in at least one of them
+        for hs in ([1 + case["i"] % 7] if not several else [1, 2, 3, 4]):
+            e = env.child_env()
+            e["PYTHONHASHSEED"] = str(hs)
+            p = subprocess.run(["/venv/bin/python", "-B", "-m", "checks.c16"], input=json.dumps(_plain(spec)), capture_output=True, text=True, env=e, cwd=env.VERIF_DIR, timeout=300, check=False)
+            obs.count("fresh_process_runs")
+            if several:
+                obs.count("fresh_process_runs_with_several_samplers")
+            if p.returncode != 0:
+                obs.violation("fresh_process_failed", stderr=p.stderr[-800:])
+                return
+            obs.count("trace_pairs_compared")
+            if p.stdout.strip().split()[-1] != A[0]:
+                obs.violation("trace_differs_in_fresh_process", samplers=spec["samplers"], hash_seed=hs)
+                return
     obs.sample({"method": spec["optimizer"]["method"], "samplers": spec["samplers"], "assignment": spec.get("smap"), "mask": spec.get("mask"), "seed": spec["seed"],
                 "evaluator_calls": A[1], "digest": A[0][:16]})
 
